@@ -107,6 +107,14 @@ where
                                     }
                                 }
                             }
+                            (ResolveResult::Bound(XNM), Event::Empty(tag))
+                                if tag.local_name().as_ref() == b"policy-options"
+                                    && !policy_options_seen =>
+                            {
+                                // `<policy-options/>`: no policy statements
+                                tracing::debug!(?tag);
+                                policy_options_seen = true;
+                            }
                             (_, Event::Comment(_)) => continue,
                             (_, Event::End(tag)) if tag == end => break,
                             (ns, event) => {
@@ -116,6 +124,16 @@ where
                         }
                     }
                     this = Some(Self { map });
+                }
+                (ResolveResult::Bound(XNM), Event::Empty(tag))
+                    if tag.local_name().as_ref() == b"configuration" && this.is_none() =>
+                {
+                    // `<configuration/>`: the same (empty) configuration as
+                    // `<configuration></configuration>`
+                    tracing::debug!(?tag);
+                    this = Some(Self {
+                        map: HashMap::new(),
+                    });
                 }
                 (_, Event::Comment(_)) => continue,
                 (_, Event::End(tag)) if tag == end => break,
@@ -211,6 +229,13 @@ impl ReadXml for Maybe<Candidate> {
                             {
                                 reject_policy = true;
                             }
+                            (ResolveResult::Bound(XNM), Event::Start(tag))
+                                if tag.local_name().as_ref() == b"reject" =>
+                            {
+                                // `<reject></reject>` is the same element as `<reject/>`
+                                _ = reader.read_to_end(tag.to_end().name())?;
+                                reject_policy = true;
+                            }
                             (_, Event::Comment(_)) => continue,
                             (_, Event::End(tag)) if tag == end => break,
                             (_, Event::Empty(_)) => other_content = true,
@@ -300,6 +325,13 @@ impl ReadXml for Maybe<Installed> {
                             {
                                 default_reject = true;
                             }
+                            (ResolveResult::Bound(XNM), Event::Start(tag))
+                                if tag.local_name().as_ref() == b"reject" =>
+                            {
+                                // `<reject></reject>` is the same element as `<reject/>`
+                                _ = reader.read_to_end(tag.to_end().name())?;
+                                default_reject = true;
+                            }
                             (_, Event::Comment(_)) => continue,
                             (_, Event::End(tag)) if tag == end => break,
                             (ns, event) => {
@@ -386,6 +418,14 @@ impl<'i> BorrowedReadXml<'i> for Term<'i> {
                                 if tag.local_name().as_ref() == b"accept" && !accept =>
                             {
                                 tracing::trace!(?tag);
+                                accept = true;
+                            }
+                            (ResolveResult::Bound(XNM), Event::Start(tag))
+                                if tag.local_name().as_ref() == b"accept" && !accept =>
+                            {
+                                // `<accept></accept>` is the same element as `<accept/>`
+                                tracing::trace!(?tag);
+                                _ = reader.read_to_end(tag.to_end().name())?;
                                 accept = true;
                             }
                             (_, Event::Comment(_)) => continue,
